@@ -37,7 +37,7 @@ const (
 var patterns = []string{
 	"./cache", "./frac", "./frac/...", "./disk", "./fracmanager", "./storeapi",
 	"./proxy/bulk", "./proxy/search", "./proxy/stores", "./proxyapi", "./network/circuitbreaker",
-	"./util", "./bytespool", "./mappingprovider", "./seq", "./metric/...", "./conf", "./consts",
+	"./util", "./bytespool", "./mappingprovider", "./seq", "./metric/...", "./conf", "./consts", "./packer",
 }
 
 // files that additionally get statement-level pre-emption points (anchors of C07 / C18)
@@ -47,6 +47,10 @@ var stmtFiles = []string{
 	"frac/sealed.go", "frac/file_writer.go", "frac/active_writer.go",
 	"fracmanager/proxy_frac.go", "fracmanager/fracmanager.go", "fracmanager/searcher.go", "fracmanager/fetcher.go",
 	"cache/cache.go", "cache/cleaner.go",
+	// helpers that every seal and every block load goes through: state shared between two of them (a package-level
+	// scratch buffer, a shared options object) only shows when one is pre-empted between two plain statements
+	"packer/bytes_packer.go", "disk/block_former.go", "disk/blocks_writer.go", "frac/disk_blocks_writer.go",
+	"frac/token/block_loader.go", "frac/token/table_loader.go",
 }
 
 type site struct {
@@ -209,9 +213,9 @@ type rewriter struct {
 	useSim  bool
 	useOS   bool
 	nvar    int
-	skip    map[ast.Node]bool          // receive/send nodes that are the comm of a select clause
-	pending map[ast.Node][]ast.Stmt    // statements to insert before a labeled statement
-	pendAft map[ast.Node][]ast.Stmt    // statements to insert after a labeled statement
+	skip    map[ast.Node]bool       // receive/send nodes that are the comm of a select clause
+	pending map[ast.Node][]ast.Stmt // statements to insert before a labeled statement
+	pendAft map[ast.Node][]ast.Stmt // statements to insert after a labeled statement
 	stmtLvl bool
 }
 
@@ -593,6 +597,17 @@ func (r *rewriter) applyConstVariant(file *ast.File, v map[string]map[string]str
 	}
 	// package-level and function-local constant declarations
 	ast.Inspect(file, func(n ast.Node) bool {
+		// a tuning value that is written as a local variable: `name := <constant expression>` (key ":=name@file.go")
+		if as, ok := n.(*ast.AssignStmt); ok && as.Tok == token.DEFINE && len(as.Lhs) == 1 && len(as.Rhs) == 1 {
+			if id, ok := as.Lhs[0].(*ast.Ident); ok {
+				if lit, ok := vals[":="+id.Name+"@"+filepath.Base(r.fset.Position(as.Pos()).Filename)]; ok {
+					as.Rhs[0] = &ast.BasicLit{Kind: token.INT, Value: lit}
+					r.changed = true
+					counts["const:"+id.Name]++
+				}
+			}
+			return true
+		}
 		gd, ok := n.(*ast.GenDecl)
 		if !ok || gd.Tok != token.CONST {
 			return true
